@@ -450,7 +450,7 @@ Proof. intros Hc. rewrite (cdecode_idx _ _ Hc). apply ref_idx_range. apply Hc. Q
 Lemma ref_touch_hit r idx tag al : ref_lookup r idx tag = true ->
   ref_touch al r idx tag = ref_touch false r idx tag.
 Proof.
-  unfold ref_lookup, ref_touch, ref_set_touch. rewrite <- ref_way_lookup.
+  unfold ref_lookup, ref_touch, ref_set_touch. rewrite <- (ref_way_lookup _ _ 0).
   destruct (ref_way _ _ _); [reflexivity | discriminate].
 Qed.
 
@@ -528,7 +528,7 @@ Proof.
     destruct (read_block_abs _ _ _ _ Ec) as (Ha & Hh & _). cbn [snd]. rewrite Ha.
     symmetry. apply ref_touch_hit. rewrite <- lookup_of_ref, El. reflexivity.
   - split; [apply same_config_refl|]. split; [exact Hd|]. split; [reflexivity|]. split; [reflexivity | exact El].
-  - destruct (dfill_frame d da v) as (Hw & Hp & Hc). rewrite dfill_dc.
+  - destruct (dfill_frame d da v) as (Hw & Hp & Hc). unfold same_config. rewrite !dfill_dc.
     split; [split; [apply cfg_write_block | split; assumption]|].
     split; [apply cinv_write_block; exact Hd|]. split; [exact Hc|].
     rewrite El. split; [reflexivity|]. split; [|discriminate].
@@ -556,7 +556,8 @@ Proof.
   destruct (cache_read_block (dc d) da) as [[v|] c']; [reflexivity|].
   destruct (read_words (lower d) (da_balign da) _) as [v|e]; [|reflexivity].
   destruct (cache_write_block (dc d) da v) as [[h' [[a ws]|]] c2]; cbn [fst snd]; [|reflexivity].
-  cbn [upd_dc wthrough]. destruct (wthrough d); reflexivity.
+  unfold upd_dc, upd_lower. cbn [dc lower wthrough penalty hits accesses lasthit].
+  destruct (wthrough d); reflexivity.
 Qed.
 
 (** ** reads *)
@@ -593,20 +594,21 @@ Proof.
   intros Hd Hr. rewrite dc_read_unfold in Hr. unfold rd_hit.
   rewrite <- (cdecode_idx _ a Hd), <- (cdecode_tag _ a Hd).
   set (da := cdecode (dc d) a) in *.
+  assert (Hh : ref_lookup (tags_of d) (da_idx da) (da_tag da) = hitb (lookup_of (dc d) da))
+    by (symmetry; apply lookup_of_ref).
+  rewrite Hh. clear Hh.
   destruct (dc_read_block d da) as [r1 d1] eqn:Eb.
   destruct (dc_read_block_spec _ _ _ _ Hd Eb) as (Hsc & Hd1 & Hc1 & Hres).
   destruct r1 as [[blk hit]|e].
-  - destruct Hres as (Hhit & Htags & Hlow). injection Hr as <- <- <-.
-    unfold tags_of at 2 3. rewrite <- lookup_of_ref, <- Hhit.
-    destruct counted; cbn [upd_stats fst snd].
+  - destruct Hres as (Hhit & Htags & Hlow). rewrite <- Hhit.
+    destruct counted; cbn [upd_stats fst snd] in Hr; injection Hr as <- <- <-.
     + split; [exact Hsc|]. split; [exact Hd1|]. right. exists blk. split; [reflexivity|].
       split; [exact Htags|]. split; [exact Hlow|].
       destruct Hsc as (_ & _ & Hp). rewrite Hp. unfold counters_of in *. cbn [hits accesses lasthit].
       injection Hc1 as -> -> _. split; reflexivity.
     + split; [exact Hsc|]. split; [exact Hd1|]. right. exists blk. auto.
   - destruct Hres as (-> & El). injection Hr as <- <- <-.
-    split; [exact Hsc|]. split; [exact Hd1|]. left. exists e.
-    unfold tags_of. rewrite <- lookup_of_ref, El. auto.
+    split; [exact Hsc|]. split; [exact Hd1|]. left. exists e. rewrite El. auto.
 Qed.
 
 (* C09.5: the display re-read *)
@@ -620,9 +622,176 @@ Proof.
   rewrite Hda. set (da := cdecode (dc d) a) in *.
   destruct (dc_read_block d da) as [[[blk hit]|e] d0] eqn:Eb.
   - pose proof (dc_read_block_reread _ _ _ _ _ Hd Hidx Eb) as Hrr.
-    injection Hr as <- <- <-. destruct counted.
+    assert (E1 : r = from_block nbits da blk) by congruence.
+    assert (E2 : d1 = if counted then fst (upd_stats d0 hit) else d0) by congruence.
+    subst r d1. clear Hr. destruct counted.
     + rewrite dc_read_block_stats, Hrr. reflexivity.
     + rewrite Hrr. reflexivity.
   - destruct (dc_read_block_spec _ _ _ _ Hd Eb) as (_ & _ & _ & -> & _).
     injection Hr as <- <- <-. rewrite Eb. reflexivity.
+Qed.
+
+(** ** writes *)
+(* a halfword / word store that does not fit the addressed word *)
+Definition crosses (nbits : Z) (da : daddr) : bool :=
+  ((nbits =? 16) && (da_byoff da >? 2)) || ((nbits =? 32) && negb (da_byoff da =? 0)).
+
+(* direct (parser) writes: only the lower memory is touched, even when the write fails *)
+Lemma dc_write_direct_spec d nbits a v e d' p : dc_write d nbits a v true = (e, d', p) ->
+  dc d' = dc d /\ counters_of d' = counters_of d /\ wthrough d' = wthrough d /\
+  penalty d' = penalty d /\ p = 0 /\ mem_write rv_memcfg (lower d) nbits a v = (lower d', e).
+Proof.
+  unfold dc_write. destruct (mem_write rv_memcfg (lower d) nbits a v) as [m' e'] eqn:Em.
+  intros H. injection H as <- <- <-. cbn [upd_lower dc wthrough penalty lower]. repeat split.
+Qed.
+
+Lemma read_block_facts (c : cache Z) da ob c1 : CInv c -> cache_read_block c da = (ob, c1) ->
+  CInv c1 /\ cfg c1 = cfg c /\
+  abs_dir c1 = ref_touch false (abs_dir c) (da_idx da) (da_tag da) /\
+  match ob with
+  | Some blk => ref_lookup (abs_dir c) (da_idx da) (da_tag da) = true /\
+                exists w, lookup_of c da = Some w /\ c1 = snd (cache_read_block c da)
+  | None => ref_lookup (abs_dir c) (da_idx da) (da_tag da) = false /\ lookup_of c da = None /\ c1 = c
+  end.
+Proof.
+  intros Hc Er. pose proof (cinv_read_block _ da Hc) as Hc1. rewrite Er in Hc1. cbn [snd] in Hc1.
+  destruct (read_block_abs _ _ _ _ Er) as (Ha & Hh & Hcfg). rewrite <- lookup_of_ref, Hh.
+  split; [exact Hc1|]. split; [exact Hcfg|]. split; [exact Ha|].
+  destruct ob as [blk|].
+  - split; [reflexivity|]. destruct (lookup_of c da) as [w|] eqn:El; [|discriminate].
+    exists w. rewrite Er. auto.
+  - split; [reflexivity|]. destruct (lookup_of c da) as [w|] eqn:El; [discriminate|].
+    rewrite (read_block_miss _ _ El) in Er. injection Er as <-. auto.
+Qed.
+
+Definition dc_hit := rd_hit.
+
+(* write-through, no write-allocate *)
+Lemma dc_write_wt_spec d nbits a v e d' p : DInv d -> wthrough d = true ->
+  dc_write d nbits a v false = (e, d', p) ->
+  let da := cdecode (dc d) a in
+  let g := cfg (dc d) in
+  same_config d d' /\ DInv d' /\
+  ((crosses nbits da = true /\ d' = d /\ p = 0 /\
+    e = Some (EOffset (da_byoff da) (if nbits =? 16 then 2 else 0))) \/
+   (crosses nbits da = false /\
+    tags_of d' = ref_touch false (tags_of d) (ref_idx g a) (ref_tag g a) /\
+    counters_of d' = count (counters_of d) (dc_hit d a) /\
+    p = miss_penalty (penalty d) (dc_hit d a))).
+Proof.
+  intros Hd Hwt Hw da g. unfold dc_hit, rd_hit. subst g.
+  rewrite <- (cdecode_idx _ a Hd), <- (cdecode_tag _ a Hd). fold da.
+  unfold dc_write in Hw. fold da in Hw. rewrite Hwt in Hw. unfold crosses.
+  destruct ((nbits =? 16) && (da_byoff da >? 2)) eqn:E16.
+  { injection Hw as <- <- <-. split; [apply same_config_refl|]. split; [exact Hd|]. left.
+    apply andb_true_iff in E16. destruct E16 as [-> _]. auto. }
+  destruct ((nbits =? 32) && negb (da_byoff da =? 0)) eqn:E32.
+  { injection Hw as <- <- <-. split; [apply same_config_refl|]. split; [exact Hd|]. left.
+    apply andb_true_iff in E32. destruct E32 as [E _]. apply Z.eqb_eq in E. subst nbits. auto. }
+  cbn [orb].
+  destruct (cache_read_block (dc d) da) as [ob c1] eqn:Er.
+  destruct (read_block_facts _ _ _ _ Hd Er) as (Hc1 & Hcfg1 & Habs1 & Hob).
+  unfold upd_stats in Hw. cbn [upd_dc dc lower wthrough penalty hits accesses lasthit] in Hw.
+  destruct ob as [blk|].
+  - destruct Hob as (Hhit & w & El & Ec1). unfold tags_of. rewrite Hhit.
+    destruct (into_block nbits da blk v) as [blk'|e1] eqn:Ei.
+    + destruct (write_after_read_hit (dc d) da blk' w Hd El) as (_ & Habs2 & _).
+      rewrite <- Ec1 in Habs2.
+      pose proof (cinv_write_block c1 da blk' Hc1) as Hc2.
+      pose proof (cfg_write_block c1 da blk') as Hcfg2.
+      destruct (cache_write_block c1 da blk') as [[h2 disp] c2] eqn:Ew. cbn [snd] in *.
+      cbn [upd_dc dc lower wthrough penalty hits accesses lasthit] in Hw.
+      destruct (mem_write rv_memcfg (lower d) nbits a v) as [m' e'] eqn:Em.
+      injection Hw as <- <- <-. unfold same_config, DInv, counters_of, count, miss_penalty.
+      cbn [upd_lower upd_dc dc wthrough penalty hits accesses lasthit c_hits c_accesses c_lasthit].
+      split; [repeat split; congruence|]. split; [exact Hc2|]. right.
+      split; [reflexivity|]. split; [congruence|]. split; reflexivity.
+    + injection Hw as <- <- <-. unfold same_config, DInv, counters_of, count, miss_penalty.
+      cbn [dc wthrough penalty hits accesses lasthit c_hits c_accesses c_lasthit].
+      split; [repeat split; congruence|]. split; [exact Hc1|]. right.
+      split; [reflexivity|]. split; [congruence|]. split; reflexivity.
+  - destruct Hob as (Hhit & El & ->). unfold tags_of. rewrite Hhit.
+    cbn [lower] in Hw.
+    destruct (mem_write rv_memcfg (lower d) nbits a v) as [m' e'] eqn:Em.
+    injection Hw as <- <- <-. unfold same_config, DInv, counters_of, count, miss_penalty.
+    cbn [upd_lower upd_dc dc wthrough penalty hits accesses lasthit c_hits c_accesses c_lasthit].
+    split; [repeat split; congruence|]. split; [exact Hc1|]. right.
+    split; [reflexivity|]. split; [congruence|]. split; reflexivity.
+Qed.
+
+Lemma read_block_blocks {T} (c : cache T) da :
+  map blocks (sets (snd (cache_read_block c da))) = map blocks (sets c).
+Proof.
+  unfold cache_read_block. destruct (find_block _ _ _) as [w|]; [|reflexivity].
+  cbn [snd put_set sets]. rewrite map_set_nthZ. cbn [blocks].
+  unfold get_set. change (@nil (cblock T)) with (blocks (dummy_set T)).
+  rewrite <- (map_nthZ blocks). apply set_nthZ_same.
+Qed.
+
+(* write-back, write-allocate *)
+Lemma dc_write_wb_spec d nbits a v e d' p : DInv d -> wthrough d = false ->
+  dc_write d nbits a v false = (e, d', p) ->
+  let da := cdecode (dc d) a in
+  let g := cfg (dc d) in
+  same_config d d' /\ DInv d' /\
+  match e with
+  | None =>
+      tags_of d' = ref_touch true (tags_of d) (ref_idx g a) (ref_tag g a) /\
+      counters_of d' = count (counters_of d) (dc_hit d a) /\
+      p = miss_penalty (penalty d) (dc_hit d a)
+  | Some e1 =>
+      tags_of d' = ref_touch false (tags_of d) (ref_idx g a) (ref_tag g a) /\
+      counters_of d' = counters_of d /\ p = 0 /\ lower d' = lower d /\
+      map blocks (sets (dc d')) = map blocks (sets (dc d)) /\
+      (dc_hit d a = false -> d' = d) /\
+      ((dc_hit d a = false /\ read_words (lower d) (da_balign da) (block_words d) = Err e1) \/
+       (exists blk, into_block nbits da blk v = Err e1))
+  end.
+Proof.
+  intros Hd Hwt Hw da g. unfold dc_hit, rd_hit. subst g.
+  rewrite <- (cdecode_idx _ a Hd), <- (cdecode_tag _ a Hd). fold da.
+  unfold dc_write in Hw. fold da in Hw. rewrite Hwt in Hw.
+  pose proof (read_block_blocks (dc d) da) as Hbl.
+  destruct (cache_read_block (dc d) da) as [ob c1] eqn:Er. cbn [snd] in Hbl.
+  destruct (read_block_facts _ _ _ _ Hd Er) as (Hc1 & Hcfg1 & Habs1 & Hob).
+  destruct ob as [blk|].
+  - destruct Hob as (Hhit & w & El & Ec1). unfold tags_of. rewrite Hhit.
+    destruct (into_block nbits da blk v) as [blk'|e1] eqn:Ei.
+    + destruct (write_after_read_hit (dc d) da blk' w Hd El) as (_ & Habs2 & Hfst).
+      rewrite <- Ec1 in Habs2, Hfst.
+      pose proof (cinv_write_block c1 da blk' Hc1) as Hc2.
+      pose proof (cfg_write_block c1 da blk') as Hcfg2.
+      cbn [upd_dc dc] in Hw.
+      destruct (cache_write_block c1 da blk') as [[h2 disp] c2] eqn:Ew. cbn [snd fst] in *.
+      injection Hfst as -> ->. unfold upd_stats in Hw. injection Hw as <- <- <-.
+      unfold same_config, DInv, counters_of, count, miss_penalty.
+      cbn [upd_lower upd_dc dc wthrough penalty hits accesses lasthit c_hits c_accesses c_lasthit].
+      split; [repeat split; congruence|]. split; [exact Hc2|].
+      split; [|split; reflexivity].
+      rewrite Habs2, Habs1. symmetry. apply ref_touch_hit. exact Hhit.
+    + injection Hw as <- <- <-. unfold same_config, DInv, counters_of.
+      cbn [upd_dc dc wthrough penalty hits accesses lasthit lower].
+      split; [repeat split; congruence|]. split; [exact Hc1|].
+      split; [exact Habs1|]. split; [reflexivity|]. split; [reflexivity|]. split; [reflexivity|].
+      split; [exact Hbl|]. split; [discriminate|]. right. exists blk. exact Ei.
+  - destruct Hob as (Hhit & El & ->). unfold tags_of. rewrite Hhit.
+    rewrite upd_dc_same in Hw.
+    destruct (read_words (lower d) (da_balign da) (block_words d)) as [blk|e1] eqn:Erw.
+    + destruct (into_block nbits da blk v) as [blk'|e1] eqn:Ei.
+      * pose proof (write_block_miss_abs (dc d) da blk' El) as Habs2.
+        pose proof (cinv_write_block (dc d) da blk' Hd) as Hc2.
+        pose proof (cfg_write_block (dc d) da blk') as Hcfg2.
+        rewrite (write_block_miss _ _ blk' El) in Hw, Habs2, Hc2, Hcfg2. cbn [snd] in *.
+        unfold upd_stats in Hw. injection Hw as <- <- <-.
+        unfold same_config, DInv, counters_of, count, miss_penalty.
+        match goal with |- context [if dirty ?o then _ else _] => destruct (dirty o) end;
+          cbn [upd_lower upd_dc dc wthrough penalty hits accesses lasthit c_hits c_accesses c_lasthit];
+          (split; [repeat split; congruence|]); (split; [exact Hc2|]);
+          (split; [exact Habs2|]); split; reflexivity.
+      * injection Hw as <- <- <-.
+        split; [apply same_config_refl|]. split; [exact Hd|]. split; [exact Habs1|].
+        do 4 (split; [reflexivity|]). split; [intros _; reflexivity|]. right. exists blk. exact Ei.
+    + injection Hw as <- <- <-.
+      split; [apply same_config_refl|]. split; [exact Hd|]. split; [exact Habs1|].
+      do 4 (split; [reflexivity|]). split; [intros _; reflexivity|]. left. auto.
 Qed.
